@@ -175,10 +175,12 @@ theorem legacy_ntp_roundtrip_false : ntpToSystemTime (Legacy.systemTimeToNtp 1) 
 
 /-- EXT_FDT (RFC 6726 §3.4.1): ∀ version < 16, FDT instance id < 2^20, the extension `push_fdt` appends is the
     RFC layout -/
-theorem ext_fdt_eq_spec (data : List Nat) (version id : Nat) (hv : version < 16) (hid : id < 2^20) :
-    pushFdt data version id = extendInc data (Spec.encode (extFdtDiagram version id)) 1 := by
+theorem ext_fdt_eq_spec (data : List Nat) (version id : Nat) (hv : version < 16) :
+    pushFdt data version id = extendInc data (Spec.encode (extFdtDiagram version (id % 2^20))) 1 := by
+  have hid : id % 2^20 < 2^20 := Nat.mod_lt _ (by decide)
   unfold pushFdt
-  rewrite [fdt_word version id hv hid]
+  rewrite [fdt_word version _ hv hid]
+  generalize id % 2^20 = id at hid
   spec_bytes
   rw [Nat.add_assoc]
 
@@ -647,7 +649,7 @@ theorem payload_id_rs2m_roundtrip (oti : Oti) (m g sbn esi sbl : Nat) (hf : oti.
 theorem alc_pkt_roundtrip (oti : Oti) (cci tsi : Nat) (pkt : Pkt) (rfc3926 : Bool) (nowUs id : Nat)
     (wfti : List Nat) (nfti : Nat) (o' : Oti) (wpid : List Nat) (pid : PayloadId)
     (hk : knownFec oti.fecId = true) (hcci : cci < 2^128) (htsi : tsi < 2^48) (htoi : pkt.toi < 2^112)
-    (hfdt : pkt.toi = 0 → pkt.fdtId = some id ∧ id < 2^20)
+    (hfdt : pkt.toi = 0 → pkt.fdtId = some id)
     (hcenc : pkt.cenc ≤ 3)
     (hnow : pkt.senderCurrentTime = true → nowUs / 1000000 + 2208988800 < 2^32)
     (hfti : (pkt.toi = 0 ∨ oti.inbandFti = true) → FtiOk oti pkt.transferLength wfti nfti o') (hn : nfti ≤ 4)
@@ -655,7 +657,7 @@ theorem alc_pkt_roundtrip (oti : Oti) (cci tsi : Nat) (pkt : Pkt) (rfc3926 : Boo
     ∃ d p, newAlcPkt oti cci tsi pkt rfc3926 nowUs = .ok d ∧ parseAlcPkt d = .ok p ∧
       p.lct.cci = cci ∧ p.lct.tsi = tsi ∧ p.lct.toi = pkt.toi ∧ p.lct.cp = oti.fecId ∧
       p.lct.closeObject = pkt.closeObject ∧ p.lct.closeSession = false ∧
-      p.fdtInfo = (if pkt.toi = 0 then some (if rfc3926 = true then 1 else 2, id) else none) ∧
+      p.fdtInfo = (if pkt.toi = 0 then some (if rfc3926 = true then 1 else 2, id % 2^20) else none) ∧
       p.cenc = (if (pkt.toi = 0 ∧ pkt.cenc ≠ 0) ∨ pkt.inbandCenc = true then some pkt.cenc else none) ∧
       p.oti = (if pkt.toi = 0 ∨ oti.inbandFti = true then some o' else none) ∧
       p.transferLength = (if pkt.toi = 0 ∨ oti.inbandFti = true then some pkt.transferLength else none) ∧
@@ -675,10 +677,10 @@ theorem alc_pkt_roundtrip (oti : Oti) (cci tsi : Nat) (pkt : Pkt) (rfc3926 : Boo
     · exact ⟨0, fun h' => absurd h' h, by decide, fun h' => absurd h' h⟩
   obtain ⟨hv, hbuild⟩ := newAlcPkt_layout oti cci tsi pkt rfc3926 nowUs ntp id wfti nfti o' wpid hcp hcci htsi htoi hfdt
     (by omega) hntp1 hfti hn hpid.build
-  have hparse := parseAlcPkt_pktHeader oti cci tsi pkt rfc3926 ntp id wfti nfti o' wpid hv hk (fun h => (hfdt h).2) hcenc
+  have hparse := parseAlcPkt_pktHeader oti cci tsi pkt rfc3926 ntp id wfti nfti o' wpid hv hk hcenc
     hfti hpid.len
   have hsct := getSenderCurrentTime_pktHeader oti cci tsi pkt rfc3926 ntp id wfti nfti o' (wpid ++ pkt.payload) hv
-    (fun h => (hfdt h).2) hcenc hfti hntp2
+    hcenc hfti hntp2
   obtain ⟨hp1, hp2, hp3⟩ := parsePayloadId_pktHeader oti cci tsi pkt rfc3926 ntp id wfti o' oti wpid pkt.payload hv hpid.len
   refine ⟨_, _, hbuild, hparse, rfl, rfl, rfl, rfl, rfl, rfl, rfl, rfl, rfl, rfl, ?_, ?_, hp2, rfl, ?_, hp3⟩
   · rw [hsct]
